@@ -55,12 +55,13 @@ type aim struct {
 	n, first    int
 }
 
-func (a *aim) spins(offset int) int {
+// the spins of the two sides for an offset: a negative delay is spent on the job's side
+func (a *aim) spins(offset int) (caller, job int) {
 	d := int(a.delay) + offset
 	if d < 0 {
-		return 0
+		return 0, -d
 	}
-	return d
+	return d, 0
 }
 
 // calibration shot (offset 0): the call drew its number before the job's return did
@@ -75,15 +76,15 @@ func (a *aim) feed(callFirst bool) {
 	if a.step > 3 {
 		a.step *= 0.97
 	}
-	if a.delay < 0 {
-		a.delay = 0
+	if a.delay < -50000 {
+		a.delay = -50000
 	}
 	if a.delay > 50000 {
 		a.delay = 50000
 	}
 }
 
-const jobBase = 600 // spins of the failing job between the handshake and its return
+const jobBase = 100 // least spins of the failing job between the handshake and its return
 
 type windows struct {
 	out   *h.Out
@@ -116,7 +117,7 @@ func hammer(ctx context.Context, k int, stop *uint32) *sync.WaitGroup {
 func (w *windows) aimOf(key string) *aim {
 	a := w.aims[key]
 	if a == nil {
-		a = &aim{delay: jobBase, step: 48}
+		a = &aim{delay: 0, step: 48}
 		w.aims[key] = a
 	}
 	return a
@@ -128,7 +129,7 @@ func (w *windows) offset() (off int, calib bool) {
 	case 0, 1:
 		return 0, true
 	case 2:
-		return -w.rng.Intn(jobBase), false // the call is inside (parked) when the job returns
+		return -w.rng.Intn(600), false // the call is inside (parked) when the job returns
 	case 3:
 		return w.rng.Intn(3000), false
 	default:
@@ -171,8 +172,8 @@ func (r *rec) settle() {
 type shot struct {
 	started, release, ack, hold, stop uint32
 	seq, retSeq, callSeq              int64
+	jd                                int64
 	jctx                              atomic.Value
-	jd                                int
 }
 
 // the failing job's body: wait for the flag, shake hands, spin, log End, return
@@ -183,14 +184,15 @@ func (s *shot) target(r *rec, j int, ctx context.Context) error {
 	for atomic.LoadUint32(&s.release) == 0 {
 	}
 	atomic.StoreUint32(&s.ack, 1)
-	spin(jobBase + s.jd)
+	spin(jobBase + int(atomic.LoadInt64(&s.jd)))
 	r.logCC(e, ctx)
 	atomic.StoreInt64(&s.retSeq, atomic.AddInt64(&s.seq, 1))
 	return jobErr[j]
 }
 
 // the caller's side: raise the flag, shake hands, spin, then the call follows
-func (s *shot) fire(spins int) {
+func (s *shot) fire(spins, jobSpins int) {
+	atomic.AddInt64(&s.jd, int64(jobSpins))
 	atomic.StoreUint32(&s.release, 1)
 	for atomic.LoadUint32(&s.ack) == 0 {
 	}
@@ -214,7 +216,7 @@ func (w *windows) waitWindow(sem, n, nham int, lazy bool) error {
 	if err != nil {
 		return err
 	}
-	s := &shot{jd: w.rng.Intn(64)}
+	s := &shot{jd: int64(w.rng.Intn(64))}
 	for j := 1; j <= n; j++ {
 		j := j
 		r.log(ev{"a": "NewJobCall", "j": j})
@@ -278,7 +280,7 @@ func (w *windows) newJobWindow(sem, nham int) error {
 	if err != nil {
 		return err
 	}
-	s := &shot{jd: w.rng.Intn(64)}
+	s := &shot{jd: int64(w.rng.Intn(64))}
 	var holders int32
 	submit := func(j int, f func(ctx context.Context) error) bool {
 		r.log(ev{"a": "NewJobCall", "j": j})
@@ -433,9 +435,6 @@ func (w *windows) runWindow(batch bool, nham int) error {
 
 // aimed histories of every family in turn until the budget is used up (at least min rounds)
 func (w *windows) run(budget time.Duration, min, max int) error {
-	if runtime.GOMAXPROCS(0) < 2 {
-		return nil // needs two processors; nothing is claimed without them
-	}
 	t0 := time.Now()
 	for k := 0; k < max && (k < min || time.Since(t0) < budget); k++ {
 		sem := 1 + w.rng.Intn(3)
